@@ -14,6 +14,7 @@ package gossip
 import (
 	"context"
 	"errors"
+	"time"
 
 	"google.golang.org/grpc"
 	"google.golang.org/protobuf/types/known/emptypb"
@@ -23,12 +24,14 @@ import (
 	"github.com/bartossh/Computantis/src/protobufcompiled"
 	"github.com/bartossh/Computantis/src/spice"
 	"github.com/bartossh/Computantis/src/transaction"
+	"github.com/bartossh/Computantis/src/transformers"
 	"github.com/bartossh/Computantis/src/verifrt"
 )
 
 type vhNetLedger struct {
 	has     map[[32]byte]*accountant.Vertex
 	admits  map[[32]byte]int
+	offers  map[[32]byte]int // AddLeaf calls per vertex (whatever their outcome)
 	parked  []*accountant.Vertex
 	viaPark map[[32]byte]bool
 }
@@ -64,6 +67,7 @@ func (l *vhNetLedger) admit(v *accountant.Vertex) {
 	}
 }
 func (l *vhNetLedger) AddLeaf(ctx context.Context, leaf *accountant.Vertex) error {
+	l.offers[leaf.Hash]++
 	if l.has[leaf.Hash] != nil {
 		return accountant.ErrLeafAlreadyExists
 	}
@@ -82,7 +86,18 @@ func (l *vhNetLedger) ReadVertex(ctx context.Context, h [32]byte) (accountant.Ve
 	return accountant.Vertex{}, accountant.ErrVertexHashNotfound
 }
 
-type vhNetCache struct{ vhCacheD }
+type vhNetCache struct {
+	vhCacheD
+	saves *int
+}
+
+func (c vhNetCache) SaveAwaitedTransaction(trx *transaction.Transaction) error {
+	*c.saves++
+	if *c.saves > 1 {
+		return cache.ErrTrxAlreadyExists
+	}
+	return nil
+}
 
 func (vhNetCache) RemoveAwaitedTransaction(hash [32]byte, address string) (transaction.Transaction, error) {
 	return transaction.Transaction{}, cache.ErrTransactionNotFound
@@ -114,7 +129,105 @@ type vhNet struct {
 	ledgers  []*vhNetLedger
 	messages int
 	early    bool // somebody forwarded an item its own ledger had not accepted
+	// one directed link on which messages are held back until the harness releases them
+	delayFrom, delayTo int
+	release            chan struct{}
+	// awaited-transaction gossip: messages per directed link, and the first message sent (for a late duplicate)
+	trxSent  map[[2]int]int
+	firstTrx *protobufcompiled.TrxMsgGossip
+	firstTo  int
 }
+
+func vhCopyTrxMsg(in *protobufcompiled.TrxMsgGossip) *protobufcompiled.TrxMsgGossip {
+	out := &protobufcompiled.TrxMsgGossip{Trx: vhWireVertex(&protobufcompiled.Vertex{Transaction: in.Trx}).Transaction}
+	for _, g := range in.Gossipers {
+		out.Gossipers = append(out.Gossipers, &protobufcompiled.Gossiper{Address: g.Address, Digest: append([]byte{}, g.Digest...), Signature: append([]byte{}, g.Signature...)})
+	}
+	return out
+}
+
+func (c vhNetClient) GossipTrx(ctx context.Context, in *protobufcompiled.TrxMsgGossip, opts ...grpc.CallOption) (*emptypb.Empty, error) {
+	if c.net.trxSent == nil {
+		c.net.trxSent = map[[2]int]int{}
+	}
+	c.net.trxSent[[2]int{c.from, c.to}]++
+	if c.net.release != nil && c.from == c.net.delayFrom && c.to == c.net.delayTo {
+		<-c.net.release
+	}
+	if c.net.firstTrx == nil {
+		c.net.firstTrx, c.net.firstTo = vhCopyTrxMsg(in), c.to
+	}
+	return c.net.nodes[c.to].GossipTrx(ctx, vhCopyTrxMsg(in))
+}
+
+// originateTrx: what runTransactionGossipProcess does with a transaction the notary accepted.
+func (net *vhNet) originateTrx(o int, tx *protobufcompiled.Transaction) {
+	g := net.nodes[o]
+	digest, signature := g.signer.Sign(createGossiperMessageToSign(g.signer.Address(), [32]byte(tx.Hash)))
+	me := &protobufcompiled.Gossiper{Address: g.signer.Address(), Digest: digest[:], Signature: signature}
+	tg := &protobufcompiled.TrxMsgGossip{Trx: tx, Gossipers: []*protobufcompiled.Gossiper{me}}
+	g.gossipTransaction(context.Background(), tg, map[string]*protobufcompiled.Gossiper{g.signer.Address(): me})
+}
+
+func (net *vhNet) vhTrxChecks(o int, where string) {
+	for i := range net.nodes {
+		if i != o {
+			verifrt.Assert(*net.nodes[i].trxCache.(vhNetCache).saves == 1, "C11/trx/"+where+"/every-other-node-stores-it-exactly-once")
+		}
+	}
+	for _, k := range net.trxSent {
+		verifrt.Assert(k <= 1, "C11/trx/"+where+"/sent-at-most-once-per-link-within-the-window")
+	}
+}
+
+// VH_C11_trx: an awaited transaction gossiped from one node of every connected 3-node network (optionally one
+// delayed link); then the vertex sealing it is gossiped and admitted everywhere; then a late duplicate of the
+// first transaction message arrives: still stored once per node and sent at most once per link.
+func VH_C11_trx() {
+	n := 3
+	net := vhNetwork(n)
+	if net == nil {
+		return
+	}
+	o := verifrt.Choose("origin", n)
+	if d := verifrt.Choose("delayed-link", 7); d > 0 {
+		net.delayFrom, net.delayTo = (d-1)/2, (d-1)%2
+		if net.delayTo >= net.delayFrom {
+			net.delayTo++
+		}
+		if _, linked := net.nodes[net.delayFrom].nodes[vhNames[net.delayTo]]; !linked {
+			return
+		}
+		net.release = make(chan struct{})
+	}
+	v := vhNetVertex(0, nil)
+	v.Transaction.CreatedAt, v.CreatedAt = time.Unix(1700000000, 0), time.Unix(1700000001, 0)
+	v.Transaction.Data = []byte{1}
+	v.Transaction.IssuerSignature = []byte(v.Transaction.IssuerAddress) // transparent signatures
+	pt, err := transformers.TrxToProtoTrx(v.Transaction)
+	verifrt.Assert(err == nil, "C11/trx/setup")
+	net.originateTrx(o, pt)
+	verifrt.Quiesce()
+	if net.release != nil {
+		close(net.release)
+		verifrt.Quiesce()
+	}
+	net.vhTrxChecks(o, "gossiped")
+	// the transaction is sealed in a vertex, which is gossiped and admitted everywhere
+	net.originate(o, v)
+	verifrt.Quiesce()
+	for i := 0; i < n; i++ {
+		verifrt.Assert(net.ledgers[i].admits[v.Hash] == 1, "C11/trx/sealing-vertex-admitted-everywhere")
+	}
+	// a delayed duplicate of the first transaction message arrives inside the suppression window
+	if net.firstTrx != nil {
+		net.nodes[net.firstTo].GossipTrx(context.Background(), vhCopyTrxMsg(net.firstTrx))
+		verifrt.Quiesce()
+	}
+	net.vhTrxChecks(o, "late-duplicate")
+	verifrt.Reach("C11/trx/end")
+}
+
 
 type vhNetClient struct {
 	protobufcompiled.GossipAPIClient
@@ -131,6 +244,9 @@ func vhCopyVrxMsg(in *protobufcompiled.VrxMsgGossip) *protobufcompiled.VrxMsgGos
 }
 
 func (c vhNetClient) GossipVrx(ctx context.Context, in *protobufcompiled.VrxMsgGossip, opts ...grpc.CallOption) (*emptypb.Empty, error) {
+	if c.net.release != nil && c.from == c.net.delayFrom && c.to == c.net.delayTo {
+		<-c.net.release // the message is in flight but arrives late
+	}
 	c.net.messages++
 	if c.net.ledgers[c.from].has[[32]byte(in.Vertex.Hash)] == nil {
 		c.net.early = true
@@ -144,6 +260,15 @@ func (c vhNetClient) GetVertex(ctx context.Context, in *protobufcompiled.SignedH
 
 var vhNames = []string{"A", "B", "C", "D"}
 
+var vhForcedLinks map[string]int // a fixed topology instead of the enumerated one
+
+func vhLink(name string) int {
+	if vhForcedLinks != nil {
+		return vhForcedLinks[name]
+	}
+	return verifrt.Choose(name, 2)
+}
+
 // vhNetwork builds n nodes with a symbolic (enumerated) set of links; returns nil unless connected.
 func vhNetwork(n int) *vhNet {
 	net := &vhNet{}
@@ -152,10 +277,10 @@ func vhNetwork(n int) *vhNet {
 		if err != nil {
 			panic(err)
 		}
-		led := &vhNetLedger{has: map[[32]byte]*accountant.Vertex{}, admits: map[[32]byte]int{}, viaPark: map[[32]byte]bool{}}
+		led := &vhNetLedger{has: map[[32]byte]*accountant.Vertex{}, admits: map[[32]byte]int{}, offers: map[[32]byte]int{}, viaPark: map[[32]byte]bool{}}
 		net.ledgers = append(net.ledgers, led)
 		net.nodes = append(net.nodes, &gossiper{accounter: led, verifier: vhNetVerifier{}, signer: vhNetSigner{vhNames[i]}, log: vhLog{},
-			trxCache: vhNetCache{}, flash: fl, nodes: map[string]nodeData{}, url: vhNames[i]})
+			trxCache: vhNetCache{saves: new(int)}, flash: fl, nodes: map[string]nodeData{}, url: vhNames[i]})
 	}
 	adj := make([][]bool, n)
 	for i := range adj {
@@ -163,7 +288,7 @@ func vhNetwork(n int) *vhNet {
 	}
 	for i := 0; i < n; i++ {
 		for j := i + 1; j < n; j++ {
-			if verifrt.Choose("link"+vhNames[i]+vhNames[j], 2) == 1 {
+			if vhLink("link"+vhNames[i]+vhNames[j]) == 1 {
 				adj[i][j], adj[j][i] = true, true
 				net.nodes[i].nodes[vhNames[j]] = nodeData{url: vhNames[j], client: vhNetClient{net: net, from: i, to: j}}
 				net.nodes[j].nodes[vhNames[i]] = nodeData{url: vhNames[i], client: vhNetClient{net: net, from: j, to: i}}
@@ -214,6 +339,14 @@ func (net *vhNet) originate(o int, v *accountant.Vertex) {
 	g.gossipVertex(context.Background(), vg, map[string]*protobufcompiled.Gossiper{g.signer.Address(): me})
 }
 
+// vhOfferedOnce: the origin stays listed as a verified gossiper in every copy, so nobody ever sends the item
+// back to it: its ledger is never offered its own vertex. (Other ledgers CAN be offered a vertex twice when two
+// copies arrive together - the recent-hash memory's check-then-set is not atomic - and reject the second offer
+// as a duplicate; "admitted exactly once" is what the property states and what the callers assert.)
+func (net *vhNet) vhOfferedOnce(origin int, v *accountant.Vertex, where string) {
+	verifrt.Assert(net.ledgers[origin].offers[v.Hash] == 0, "C11/"+where+"/origin-never-offered-its-own-vertex")
+}
+
 func vhC11Nodes() int {
 	if verifrt.Thorough() {
 		return 4
@@ -233,33 +366,72 @@ func VH_C11_single() {
 	verifrt.ExploreSchedules(1)
 	v := vhNetVertex(0, nil)
 	net.originate(o, v)
-	verifrt.Quiesce()
+	verifrt.Settle()
 	for i := 0; i < n; i++ {
 		verifrt.Assert(net.ledgers[i].admits[v.Hash] == 1, "C11/single/every-node-admits-exactly-once")
 	}
+	net.vhOfferedOnce(o, v, "single")
 	verifrt.Assert(!net.early, "C11/single/forwarded-only-after-own-ledger-accepted")
 	verifrt.Assert(net.messages <= n*(n-1), "C11/single/message-count-bounded")
 	verifrt.Reach("C11/single/end")
 }
 
-// VH_C11_path4: the 4-node topologies (all connected graphs), schedule search within a budget.
+// VH_C11_path4: ALL connected 4-node topologies, every origin, and one arbitrary directed link whose
+// messages are delayed until everything else has been delivered (or no delayed link).
 func VH_C11_path4() {
 	net := vhNetwork(4)
 	if net == nil {
 		return
 	}
 	o := verifrt.Choose("origin", 4)
-	verifrt.ExploreSchedules(0)
-	verifrt.SearchBudget(4000)
+	if d := verifrt.Choose("delayed-link", 13); d > 0 {
+		net.delayFrom, net.delayTo = (d-1)/3, (d-1)%3
+		if net.delayTo >= net.delayFrom {
+			net.delayTo++
+		}
+		if _, linked := net.nodes[net.delayFrom].nodes[vhNames[net.delayTo]]; !linked {
+			return
+		}
+		net.release = make(chan struct{})
+	}
 	v := vhNetVertex(0, nil)
 	net.originate(o, v)
 	verifrt.Quiesce()
+	if net.release != nil {
+		close(net.release)
+		verifrt.Quiesce()
+	}
 	for i := 0; i < 4; i++ {
 		verifrt.Assert(net.ledgers[i].admits[v.Hash] == 1, "C11/four/every-node-admits-exactly-once")
 	}
+	net.vhOfferedOnce(o, v, "four")
 	verifrt.Assert(!net.early, "C11/four/forwarded-only-after-own-ledger-accepted")
 	verifrt.Assert(net.messages <= 12, "C11/four/message-count-bounded")
 	verifrt.Reach("C11/four/end")
+}
+
+// VH_C11_ring4: the 4-cycle A-B-C-D-A (the smallest topology in which a copy can travel around and come
+// back to a node that already signed), optionally with one chord; every origin, EVERY delivery order of the
+// forwarding goroutines (non-preemptive schedules, exhaustive).
+func VH_C11_ring4() {
+	vhForcedLinks = map[string]int{"linkAB": 1, "linkBC": 1, "linkCD": 1, "linkAD": 1, "linkAC": verifrt.Choose("chordAC", 2), "linkBD": 0}
+	net := vhNetwork(4)
+	vhForcedLinks = nil
+	o := verifrt.Choose("origin", 4)
+	verifrt.ExploreSchedules(0)
+	if !verifrt.Thorough() {
+		verifrt.SearchBudget(3000) // quick: a bounded search; thorough: exhaustive (about 300000 schedules)
+	}
+	v := vhNetVertex(0, nil)
+	net.originate(o, v)
+	verifrt.Settle()
+	for i := 0; i < 4; i++ {
+		verifrt.Assert(net.ledgers[i].admits[v.Hash] == 1, "C11/ring/every-node-admits-exactly-once")
+	}
+	net.vhOfferedOnce(o, v, "ring")
+	verifrt.Assert(!net.early, "C11/ring/forwarded-only-after-own-ledger-accepted")
+	verifrt.Assert(net.messages <= 12, "C11/ring/message-count-bounded")
+	verifrt.Reach("C11/ring/end")
 }
 
 // VH_C11_parent_child: a parent and its child originated at one node; the child may overtake the parent.
@@ -295,4 +467,33 @@ func VH_C11_parent_child() {
 		}
 	}
 	verifrt.Reach("C11/parent-child/end")
+}
+
+// VH_C11_trx_orders: the awaited transaction alone on the smallest network in which a node with a further
+// peer can receive two copies at the same moment (A-C, A-D, C-D and the tail C-B), every origin, ALL delivery
+// orders within one preemption: a node forwards the transaction at most once per link within the window.
+func VH_C11_trx_orders() {
+	n := 4
+	vhForcedLinks = map[string]int{"linkAB": 0, "linkAC": 1, "linkAD": 1, "linkBC": 1, "linkBD": 0, "linkCD": 1}
+	net := vhNetwork(n)
+	vhForcedLinks = nil
+	o := verifrt.Choose("origin", n)
+	verifrt.ExploreSchedules(1)
+	v := vhNetVertex(0, nil)
+	v.Transaction.CreatedAt = time.Unix(1700000000, 0)
+	v.Transaction.Data = []byte{1}
+	v.Transaction.IssuerSignature = []byte(v.Transaction.IssuerAddress)
+	pt, err := transformers.TrxToProtoTrx(v.Transaction)
+	verifrt.Assert(err == nil, "C11/trx-orders/setup")
+	net.originateTrx(o, pt)
+	verifrt.Settle()
+	for i := range net.nodes {
+		if i != o {
+			verifrt.Assert(*net.nodes[i].trxCache.(vhNetCache).saves >= 1, "C11/trx-orders/every-other-node-stores-it")
+		}
+	}
+	for _, k := range net.trxSent {
+		verifrt.Assert(k <= 1, "C11/trx-orders/sent-at-most-once-per-link-within-the-window")
+	}
+	verifrt.Reach("C11/trx-orders/end")
 }
